@@ -109,6 +109,7 @@ pub struct Sim<'j> {
     pub oracle_state: oracle::OracleState,
     pub server_dead_reason: Option<String>,
     pub event_log: Vec<String>,
+    abstract_states: std::collections::HashSet<u64>,
     keep_log: bool,
     quiescent_points: u64,
 }
@@ -185,6 +186,8 @@ pub fn derive_cfg(job: &Job) -> SimCfg {
         paths_at_start: false,
         position_probe: false,
         unicode_heavy: false,
+        untitled_docs: r.chance(1, 8),
+        preexisting_dicts: r.chance(1, 3),
     };
     gen_cfg.end_with_shutdown = {
         let f = job.params.get("focus").and_then(|v| v.as_str()).unwrap_or(mode);
@@ -280,6 +283,25 @@ impl<'j> Sim<'j> {
         client.docs = workload::initial_docs(&cfg.gen_cfg, &mut rng_work);
         client.settings = workload::initial_settings(&cfg.gen_cfg, &mut rng_work);
         client.next_id = 1;
+        let mut preexisting: Vec<(String, Vec<String>)> = vec![];
+        if cfg.gen_cfg.preexisting_dicts && cfg.gen_cfg.paths_at_start {
+            // a user dictionary that exists before the server ever ran: hand-edited, CRLF line
+            // ends, with or without a final newline
+            let words: Vec<String> = (0..rng_work.range(1, 3)).map(|_| rng_work.pick(&["kubectl", "harperls", "zxqv", "Ωmega", "naïvité"]).to_string()).collect();
+            let nl = if rng_work.chance(1, 3) { "\r\n" } else { "\n" };
+            let mut content = words.join(nl);
+            if rng_work.chance(2, 3) {
+                content.push_str(nl);
+            }
+            let path = oracle::user_dict_path(&client.settings);
+            seam::as_harness(|| {
+                if let Some(parent) = std::path::Path::new(&path).parent() {
+                    let _ = std::fs::create_dir_all(parent);
+                }
+                let _ = std::fs::write(&path, content.as_bytes());
+            });
+            preexisting.push((path, words));
+        }
         let mut pr = Rng::derive(job.seed, "pct");
         let pct_changes = (0..3).map(|_| pr.below(400) as u64).collect();
         Sim {
@@ -312,9 +334,25 @@ impl<'j> Sim<'j> {
             oracle_state: oracle::OracleState::default(),
             server_dead_reason: None,
             event_log: vec![],
+            abstract_states: std::collections::HashSet::new(),
             keep_log: job.want_trace,
             quiescent_points: 0,
         }
+        .with_preexisting(preexisting)
+    }
+
+    fn with_preexisting(mut self, pre: Vec<(String, Vec<String>)>) -> Self {
+        // words found in a dictionary file count as added (and acknowledged) from the start
+        let mut id = -1i64;
+        for (path, words) in pre {
+            for w in words {
+                self.client.added.push(client::AddedWord { word: w.clone(), file: None, req_id: id, acked: true });
+                self.oracle_state.dict_model.entry(format!("user|{path}")).or_default().push((w, id));
+                id -= 1;
+            }
+            self.res.count("preexisting_dictionary", 1);
+        }
+        self
     }
 
     fn note(&mut self, s: &str) {
@@ -713,6 +751,28 @@ impl<'j> Sim<'j> {
         }
     }
 
+    /// Abstract state of the whole system at a scheduling point: what is in flight and what the
+    /// editor currently believes (used only to measure how many distinct situations were reached).
+    fn record_abstract_state(&mut self, evs: &[Ev]) {
+        let mut inflight: Vec<&str> = self.client.pending.values().map(|p| p.method.as_str()).collect();
+        inflight.sort();
+        let mut gates: Vec<&'static str> = fsim::pending().iter().map(|g| g.kind.name()).collect();
+        gates.sort();
+        let server_reqs = self.client.server_reqs.len();
+        let mut docs: Vec<(bool, bool, u64)> = self
+            .client
+            .docs
+            .iter()
+            .map(|d| (d.open, d.known_to_server, self.client.last_publish(&d.uri).map(|p| p.diags.len() as u64).unwrap_or(u64::MAX)))
+            .collect();
+        docs.sort();
+        let kinds: Vec<usize> = evs.iter().map(Self::kind_index).collect();
+        let h = fnv1a(format!("{inflight:?}|{gates:?}|{server_reqs}|{}|{docs:?}|{kinds:?}", self.wire.is_empty()).as_bytes());
+        if self.abstract_states.insert(h) {
+            self.res.states.push(h);
+        }
+    }
+
     fn install_short(&mut self) {
         let pm = self.cfg.fs_short_pm;
         if pm == 0 {
@@ -767,6 +827,7 @@ impl<'j> Sim<'j> {
                     oracle::at_quiescence(self, false);
                 }
             }
+            self.record_abstract_state(&evs);
             let (i, param) = self.choose(&evs);
             let ev = evs[i].clone();
             let label = self.label(&ev);
